@@ -3,6 +3,7 @@ package rules
 import (
 	"fmt"
 	"go/token"
+	"go/types"
 	"strings"
 
 	"golang.org/x/tools/go/ssa"
@@ -101,6 +102,60 @@ func runC12(ctx *core.Ctx) {
 	ctx.Rule("P4", "index-entry failure: after the index file is opened, every non-nil error return is preceded by os.Remove of that entry's own name; and every os.Remove reachable from Put removes a name that the same function opened for writing (no other file is ever removed)", 2)
 	ctx.Rule("P5", "first pass: a seek or copy error in the hashing pass returns before the data-file copy or the index write is attempted", 1)
 	c12PutOrder(ctx, "P3")
+	ctx.Rule("P6", "digests reach the variable that is compared: a hash Sum call whose result is discarded is given x[:0] of an array x of at least the digest size, so that the digest lands in x; any other argument leaves x unchanged (all zero), the 'already present' comparison can then never succeed, and every Put of present content rewrites a shared data file in place, where a failing source truncates it under the entries that share it", 2)
+	for _, name := range []string{"(*Cache).put", "(*Cache).copyFile"} {
+		f := ctx.Need("P6", "cache", name)
+		if f == nil {
+			continue
+		}
+		g := graph(p, f)
+		k := 0
+		g.Instrs(func(i ssa.Instruction) {
+			c, ok := i.(*ssa.Call)
+			if !ok {
+				return
+			}
+			isSum := c.Call.IsInvoke() && c.Call.Method.Name() == "Sum"
+			if !isSum && !(c.Call.StaticCallee() != nil && c.Call.StaticCallee().Name() == "Sum" && len(c.Call.Args) == 2) {
+				return
+			}
+			used := false
+			for _, r := range ssax.Referrers(c) {
+				if _, dbg := r.(*ssa.DebugRef); !dbg {
+					used = true
+				}
+			}
+			k++
+			key := shortFn(f) + "#sum" + itoa(k)
+			if used {
+				ctx.OK("P6", key, c.Pos(), "the digest returned by Sum is used directly")
+				return
+			}
+			arg := c.Call.Args[len(c.Call.Args)-1]
+			sl, isSl := arg.(*ssa.Slice)
+			good := false
+			if isSl {
+				hi, okH := int64(-1), false
+				if sl.High != nil {
+					hi, okH = ssax.ConstInt(sl.High)
+				}
+				lowZero := sl.Low == nil
+				if sl.Low != nil {
+					lo, okL := ssax.ConstInt(sl.Low)
+					lowZero = okL && lo == 0
+				}
+				if pt, okP := sl.X.Type().Underlying().(*types.Pointer); okP && okH && hi == 0 && lowZero {
+					if at, okA := pt.Elem().Underlying().(*types.Array); okA && at.Len() >= 32 {
+						good = true
+					}
+				}
+			}
+			ctx.Check(good, "P6", key, c.Pos(), "Sum with a discarded result appends into x[:0] of a digest-sized array (so the digest lands in x)")
+		})
+		if k == 0 {
+			ctx.Bad("P6", shortFn(f)+"#sum", f.Pos(), "no digest computation found")
+		}
+	}
 
 	cpf := ctx.Need("P1", "cache", "(*Cache).copyFile")
 	put := ctx.Need("P5", "cache", "(*Cache).put")
